@@ -1,14 +1,18 @@
 (* Model of pkg/object/graph/depends.go: DependencyGraph (vertices, CRD edges,
-   namespace edges, depends-on edges), SortObjs, ReverseSortObjs.  No proofs.
+   namespace edges, depends-on edges, apply-time-mutation edges — the four
+   edge passes in the order DependencyGraph calls them), SortObjs,
+   ReverseSortObjs.  No proofs.
 
    Generic in the vertex type V with a projection `idof : V -> id`; the
    theorems instantiate V := id, idof := fun x => x; the correspondence uses
    V := nat (an index into a table of ids).
 
-   Not modelled: the apply-time-mutation annotation (addApplyTimeMutationEdges;
-   the harness never sets that annotation), the text of error messages, the
-   object payload (an object is represented by what DependencyGraph reads of
-   it: its id, its parsed depends-on annotation and, for CRDs, spec.group /
+   Not modelled: the text of error messages, the object payload (an object is
+   represented by what DependencyGraph reads of it: its id, its parsed
+   depends-on annotation, the source references of its parsed
+   apply-time-mutation annotation (FieldSubstitution.SourceRef.ToObjMetadata(),
+   one per substitution, in annotation order; source/target paths and tokens
+   are not read by DependencyGraph) and, for CRDs, spec.group /
    spec.names.kind). *)
 From Coq Require Import List Bool Arith String.
 From CliUtils Require Import Model.ObjSet Model.ObjId Model.Graph.
@@ -27,9 +31,17 @@ Section DepGraph.
   | BadAnnot                     (* present but ParseDependencySet fails *)
   | Deps (l : list V).           (* parsed references, in annotation order *)
 
+  (* the apply-time-mutation annotation as read by mutation.ReadAnnotation,
+     projected to what addApplyTimeMutationEdges uses of it *)
+  Inductive mut_annot :=
+  | NoMut                        (* annotation absent *)
+  | BadMut                       (* present but yaml.Unmarshal fails *)
+  | Muts (l : list V).           (* SourceRef.ToObjMetadata() of every substitution, in annotation order *)
+
   Record obj := mkObj {
     oid : V;
     odeps : dep_annot;
+    omuts : mut_annot;
     (* GetCRDGroupKind: (spec.group, spec.names.kind) when both are strings *)
     ocrd : option (string * string)
   }.
@@ -102,14 +114,56 @@ Section DepGraph.
     let ids := map oid objs in
     flat_map (fun o => fst (obj_dep_edges ids o)) objs.
 
-  (* ids of the objects whose annotation produced a validation error *)
-  Definition dep_errors (objs : list obj) : list V :=
+  (* ids of the objects whose depends-on annotation produced a validation
+     error (the error list of addDependsOnEdges, in object order) *)
+  Definition depends_on_errors (objs : list obj) : list V :=
     let ids := map oid objs in
     flat_map (fun o => if snd (obj_dep_edges ids o) then [oid o] else []) objs.
 
-  (* all AddEdge calls of DependencyGraph, in call order *)
+  (* inner loop of addApplyTimeMutationEdges for one object: a repeated source
+     reference is skipped SILENTLY ("Duplicate dependencies can be safely
+     skipped"), a source outside the object set is an error and skipped,
+     anything else becomes an edge object -> source.  Returns (edges, had_error). *)
+  Fixpoint mut_edges_of (from : V) (ids : list V) (srcs seen : list V) : list (V * V) * bool :=
+    match srcs with
+    | [] => ([], false)
+    | d :: t =>
+        if mem eqb d seen then
+          mut_edges_of from ids t seen
+        else if negb (mem eqb d ids) then
+          let '(es, _) := mut_edges_of from ids t (d :: seen) in (es, true)
+        else
+          let '(es, e) := mut_edges_of from ids t (d :: seen) in ((from, d) :: es, e)
+    end.
+
+  Definition obj_mut_edges (ids : list V) (o : obj) : list (V * V) * bool :=
+    match omuts o with
+    | NoMut => ([], false)
+    | BadMut => ([], true)
+    | Muts l => mut_edges_of (oid o) ids l []
+    end.
+
+  Definition mut_edges (objs : list obj) : list (V * V) :=
+    let ids := map oid objs in
+    flat_map (fun o => fst (obj_mut_edges ids o)) objs.
+
+  (* the error list of addApplyTimeMutationEdges, in object order *)
+  Definition mutation_errors (objs : list obj) : list V :=
+    let ids := map oid objs in
+    flat_map (fun o => if snd (obj_mut_edges ids o) then [oid o] else []) objs.
+
+  (* the ids named by the error of DependencyGraph:
+       errors = [err of addDependsOnEdges; err of addApplyTimeMutationEdges]
+     flattened by multierror.Wrap: first every object the depends-on pass
+     rejected, then every object the mutation pass rejected (an object rejected
+     by both passes is named twice) *)
+  Definition dep_errors (objs : list obj) : list V :=
+    depends_on_errors objs ++ mutation_errors objs.
+
+  (* all AddEdge calls of DependencyGraph, in call order: addCRDEdges,
+     addNamespaceEdges, addDependsOnEdges, addApplyTimeMutationEdges *)
   Definition all_edges (objs : list obj) : list (V * V) :=
-    crd_edges objs ++ ns_edges objs ++ dep_edges objs.
+    crd_edges objs ++ ns_edges objs ++ dep_edges objs ++ mut_edges objs.
 
   (* DependencyGraph *)
   Definition dependency_graph (objs : list obj) : gmap V :=
@@ -158,9 +212,13 @@ End DepGraph.
 Arguments NoAnnot {V}.
 Arguments BadAnnot {V}.
 Arguments Deps {V} l.
-Arguments mkObj {V} oid odeps ocrd.
+Arguments NoMut {V}.
+Arguments BadMut {V}.
+Arguments Muts {V} l.
+Arguments mkObj {V} oid odeps omuts ocrd.
 Arguments oid {V} o.
 Arguments odeps {V} o.
+Arguments omuts {V} o.
 Arguments ocrd {V} o.
 Arguments mkSorted {V} s_sets s_cyc s_bad.
 Arguments s_sets {V} s.
@@ -176,6 +234,11 @@ Arguments ns_edges {V} idof objs.
 Arguments dep_edges_of {V} eqb from ids deps seen.
 Arguments obj_dep_edges {V} eqb ids o.
 Arguments dep_edges {V} eqb objs.
+Arguments depends_on_errors {V} eqb objs.
+Arguments mut_edges_of {V} eqb from ids srcs seen.
+Arguments obj_mut_edges {V} eqb ids o.
+Arguments mut_edges {V} eqb objs.
+Arguments mutation_errors {V} eqb objs.
 Arguments dep_errors {V} eqb objs.
 Arguments all_edges {V} eqb idof objs.
 Arguments dependency_graph {V} eqb idof objs.
